@@ -293,6 +293,9 @@ pub trait Suite: Sync {
     fn slogin_finish(&self, st: &Blob, fin: &Blob) -> R<Vec<u8>>;
     /// decode through the blob's codec, encode through `to`
     fn recode(&self, kind: Kind, b: &Blob, to: Codec) -> R<Blob>;
+    /// Execute `ops` one after the other on ONE ServerSetup object (deserialized once) and on password-file objects
+    /// that stay in memory; returns each operation's outputs
+    fn server_session(&self, setup: &[u8], files: &[Vec<u8>], ops: &[SrvOp]) -> R<Vec<R<Vec<Vec<u8>>>>>;
     /// The whole honest flow with every party's state kept IN MEMORY as typed objects (a truly uninterrupted run),
     /// except that at persistence point i the object is saved and reloaded through the codec chain `plan[i]`
     /// (empty = not reloaded).  Points: 0 setup before registration start, 1 client registration state, 2 password
@@ -320,6 +323,28 @@ pub trait RemoteSuite: Sync {
     fn r_setup_recode(&self, setup: &[u8], fail_at: Option<usize>) -> (R<Vec<u8>>, Vec<String>);
     fn r_sreg_start(&self, setup: &[u8], req: &Blob, cid: &[u8], fail_at: Option<usize>) -> (R<Vec<u8>>, Vec<String>);
     fn r_slogin_start(&self, t: &mut Tape, setup: &[u8], file: Option<&Blob>, req: &Blob, cid: &[u8], ctx: Ob, idu: Ob, ids: Ob, fail_at: Option<usize>) -> (R<(Vec<u8>, Vec<u8>)>, Vec<String>);
+}
+
+/// one server-side operation executed on a LONG-LIVED in-memory ServerSetup (and password-file objects that are kept
+/// in memory and cloned per login), as a real server process does
+#[derive(Clone, Debug, PartialEq, Eq, Hash, serde::Serialize, serde::Deserialize)]
+pub enum SrvOp {
+    Reg {
+        #[serde(with = "hexser")]
+        req: Vec<u8>,
+        #[serde(with = "hexser")]
+        cid: Vec<u8>,
+    },
+    Login {
+        /// index into the list of in-memory password files, or None
+        file: Option<usize>,
+        #[serde(with = "hexser")]
+        ke1: Vec<u8>,
+        #[serde(with = "hexser")]
+        cid: Vec<u8>,
+        ctx: Option<String>,
+        tape: crate::tape::TapeSpec,
+    },
 }
 
 /// everything observable in one honest flow
@@ -451,6 +476,30 @@ macro_rules! suite {
                     Kind::CLogin => recode_arm!(ClientLogin<$name>, b, to),
                     Kind::SLogin => recode_arm!(ServerLogin<$name>, b, to),
                 }
+            }
+            fn server_session(&self, setup: &[u8], files: &[Vec<u8>], ops: &[SrvOp]) -> R<Vec<R<Vec<Vec<u8>>>>> {
+                let setup = ServerSetup::<$name>::deserialize(setup).map_err(pe)?;
+                let mut fobjs = vec![];
+                for f in files {
+                    fobjs.push(ServerRegistration::<$name>::deserialize(f).map_err(pe)?);
+                }
+                let mut out = vec![];
+                for op in ops {
+                    out.push(match op {
+                        SrvOp::Reg { req, cid } => (|| {
+                            let m = RegistrationRequest::<$name>::deserialize(req).map_err(pe)?;
+                            Ok(vec![ServerRegistration::<$name>::start(&setup, m, cid).map_err(pe)?.message.serialize().to_vec()])
+                        })(),
+                        SrvOp::Login { file, ke1, cid, ctx, tape } => (|| {
+                            let m = CredentialRequest::<$name>::deserialize(ke1).map_err(pe)?;
+                            let mut t = Tape::from_spec(tape);
+                            let c = ctx.as_ref().map(|h| hex::decode(h).unwrap_or_default());
+                            let r = ServerLogin::start(&mut t, &setup, file.map(|i| fobjs[i].clone()), m, cid, ServerLoginStartParameters { context: c.as_deref(), identifiers: Identifiers { client: None, server: None } }).map_err(pe)?;
+                            Ok(vec![r.message.serialize().to_vec(), r.state.serialize().to_vec()])
+                        })(),
+                    });
+                }
+                Ok(out)
             }
             fn flow_in_memory(&self, t: &mut Tape, pw: &[u8], cid: &[u8], ctx: Ob, idu: Ob, ids: Ob, plan: &[Vec<Codec>; 6]) -> Result<FlowOut, (usize, E)> {
                 let mut o = FlowOut::default();
